@@ -74,8 +74,7 @@ void harness(void)
 
 	for (i = 0; i < NIDX; ++i) {
 		g_nodes[i]->e.name_len = g_lens[i];
-		for (k = 0; k < NAMEMAX; ++k)
-			g_nodes[i]->name[k] = (char)verif_nd_u8("name");
+		verif_nd_bytes(g_nodes[i]->name, NAMEMAX, "name");
 		g_idx[i]->next = i + 1 < NIDX ? g_idx[i + 1] : NULL;
 		g_idx[i]->ent = &g_nodes[i]->e;
 		g_idx[i]->block = verif_nd_u64("idx_block");
@@ -145,7 +144,7 @@ void harness(void)
 			for (k = 0; k < NAMEMAX; ++k)
 				if (k < g_lens[i] &&
 				    p[pos + sizeof(rec) + k] !=
-				    (sqfs_u8)g_nodes[i]->name[k])
+				    ((const sqfs_u8 *)g_nodes[i]->name)[k])
 					idx_ok = false;
 			pos += sizeof(rec) + g_lens[i];
 		}
